@@ -21,7 +21,7 @@ def design(name, module, cfg, **kw):
     return d
 
 
-def ops_trace(tier, ops, quick_n=100, thorough_n=1500):
+def ops_trace(tier, ops, quick_n=100, thorough_n=6000):
     """Direction B: random invocations of these operators recorded from the real code, validated by TLC against Trace_Ops.tla."""
     return trace("random-invocations-trace", ["ops", "-ops", ops, "-n", str(quick_n if tier == "quick" else thorough_n)], "Trace_Ops.tla", "Trace_Ops.cfg")
 
@@ -261,7 +261,7 @@ PROPS["C15"] = dict(
     stages=lambda tier: [
         mc("gate", "MC_C15.tla", "MC_C15_gate.cfg", pre=["optable", "-out", "optable.json"], min_cases=8000),
         mc("names", "MC_C15.tla", "MC_C15_names.cfg", pre=["optable", "-out", "optable.json"], min_cases=70),
-        mc("registry", "MC_C15.tla", "MC_C15_registry.cfg", pre=["optable", "-out", "optable.json"], min_cases=2000),
+        mc("registry", "MC_C15.tla", "MC_C15_registry.cfg" if tier == "quick" else "MC_C15_registry6.cfg", pre=["optable", "-out", "optable.json"], min_cases=2000),
         design("registry-singleton-antivacuity", "MC_C15.tla", "MC_C15_registry_singleton.cfg", expect_rc=12,
                note="with SingletonInstances = TRUE TLC must find the FreshInstances counterexample",
                pre=["optable", "-out", "optable.json"]),
@@ -447,7 +447,7 @@ PROPS["C17"] = dict(
         design("asis-effects-antivacuity", "MC_C17.tla", "MC_C17_asis.cfg", expect_rc=[12, 13], workers=2, note="with in-place effects TLC must find the racing schedule"),
         trace("free-running-stress-race-detector", ["conc", "-n", "12" if tier == "quick" else "60"], "Trace_Conc.tla", "Trace_Conc.cfg", race=True),
         trace("hot-loop-stress-generated-models", ["conc", "-mode", "hot", "-n", "12" if tier == "quick" else "60"], "Trace_Conc.tla", "Trace_Conc.cfg"),
-    ],
+    ] + ([mc("schedules-3-runs", "MC_C17.tla", "MC_C17_sched3.cfg", min_cases=1000, workers=8, timeout=3000)] if tier == "thorough" else []),
 )
 
 PROPS["C18"] = dict(
